@@ -235,7 +235,7 @@ theorem exec_inv {nt : Nat} (s : St) (op : Op) (h : MInv nt s) : MInv nt (exec s
               (if t = .gas ∧ dst = nt then amt else 0) := by simp [hsrc]
           rw [e1] at hl; exact hl
         exact afterPosted_inv s t l src dst amt (recvOf s.env dst dk) data d1 d2 h hl' ha
-  | vote acc pub caller =>
+  | vote acc pub caller cb =>
     simp only [exec]
     split
     · exact h
@@ -244,17 +244,25 @@ theorem exec_inv {nt : Nat} (s : St) (op : Op) (h : MInv nt s) : MInv nt (exec s
       | mk l r =>
         obtain ⟨b, g⟩ := r
         rw [hvp] at hv
+        have noCb : ∀ s' : St, MInv nt s' → MInv nt (if cb = true then { s' with skip := 1 } else s') := by
+          intro s' h'; split
+          · exact ⟨h'.notary, h'.neoC, h'.cur, h'.snap⟩
+          · exact h'
         cases b with
-        | false => exact h.done l .f hv
+        | false => exact noCb _ (h.done l .f hv)
         | true =>
           simp only []
           cases g with
-          | none => exact h.done l .t hv
+          | none => exact noCb _ (h.done l .t hv)
           | some g =>
             simp only []
             cases hm : mintGasCb s.env l acc g with
             | none => exact h.throw
-            | some l' => exact h.done l' .t (hv.mintGasCb h.notary hm)
+            | some l' =>
+              simp only []
+              split
+              · exact ⟨h.notary, h.neoC, hv.mintGasCb h.notary hm, h.snap⟩
+              · exact noCb _ (h.done l' .t (hv.mintGasCb h.notary hm))
   | register pub caller =>
     simp only [exec]
     split
@@ -346,12 +354,7 @@ theorem step_eq_exec (s : St) (op : Op) (h : op.isCall = false) : step s op = ex
 theorem step_inv {nt : Nat} (s : St) (op : Op) (h : MInv nt s) : MInv nt (step s op) := by
   unfold step
   split
-  · split
-    · split
-      · exact ⟨h.notary, h.neoC, h.cur, h.snap⟩
-      · exact h
-    · exact ⟨h.notary, h.neoC, h.cur, h.snap⟩
-    · exact h
+  · (repeat' split) <;> first | exact h | exact ⟨h.notary, h.neoC, h.cur, h.snap⟩
   · split
     · exact h.throw
     · exact exec_inv s op h
